@@ -69,8 +69,8 @@ class TraceDB:
         return {"nodes": nodes, "ents": ents}
 
 
-def norm_events(evs):
-    out, started = [], False
+def norm_events(evs, keep_all=False):
+    out, started = [], keep_all
     for e in evs:
         k = e[0]
         if not started:
@@ -119,7 +119,7 @@ class OpSet:
         else:
             h["table"] = obj
         o = {"op": op, "root": root, "rowid": ZERO, "key": [], "to": [], "stop": stop, "fail": fail,
-             "pro": "low", "lockfail": lockfail, "nested": "", "troot": 0, "pkcols": [], "pkdef": []}
+             "pro": "low", "lockfail": lockfail, "nested": "", "troot": 0, "pkcols": [], "pkdef": [], "nolock": False}
         if rowid is not None:
             h["rowid"] = str(rowid)
             o["rowid"] = values.to_tla(("i", rowid))
@@ -154,7 +154,7 @@ class OpSet:
             cols = [alias] + cols
         h = {"op": op, "id": len(self.items), "table": table, "cols": cols}
         o = {"op": "", "root": troot, "rowid": ZERO, "key": [], "to": [], "stop": stop, "fail": fail,
-             "pro": "low", "lockfail": lockfail, "nested": "", "troot": 0, "pkcols": [], "pkdef": []}
+             "pro": "low", "lockfail": lockfail, "nested": "", "troot": 0, "pkcols": [], "pkdef": [], "nolock": False}
         pkidx = next((i for i in t["indexes"].values() if i["origin"] == "pk"), None)
         pknames = [c["name"] for c in sorted((c for c in t["columns"] if c["pk"]), key=lambda c: c["pk"])]
 
@@ -235,20 +235,8 @@ class OpSet:
                 outs.append(tdb.pkmap(troot, len(pk)).get(pk, 0))
         return outs
 
-    def run(self, harness, workdir, tag="ops", timeout=1800):
-        """Execute on the real code, build the TLC inputs, run TraceOps, return per item results."""
-        by_db = {}
-        for it in self.items:
-            by_db.setdefault(it["db"], []).append(it["h"])
-        req = os.path.join(workdir, tag + "-req.ndjson")
-        out = os.path.join(workdir, tag + "-res.ndjson")
-        common.write_ndjson(req, [{"db": self.dbs[n].path, "mode": "fresh", "ops": ops} for n, ops in by_db.items()])
-        rc, txt, _ = common.run([harness, "ops", req, out], timeout=timeout)
-        if rc != 0:
-            raise Infra("harness ops failed (rc=%d): %s" % (rc, txt[-2000:]))
-        res = {r["id"]: r for r in common.read_ndjson(out)}
-        if len(res) != len(self.items):
-            raise Infra("harness returned %d results for %d operations" % (len(res), len(self.items)))
+    def collect(self, res):
+        """harness results (by op id) -> the lines TraceOps / TraceReader consume; fills it["res"], it["line"]"""
         lines = []
         for it in self.items:
             r = res[it["h"]["id"]]
@@ -279,13 +267,30 @@ class OpSet:
                 found = tdb.lookup.get((root, int(it["h"]["rowid"]), tuple(vs)), -1)
             err = "x" if (r.get("err") or r.get("panic")) else ""
             it["panic"] = r.get("panic")
-            line = {"db": it["db"], "o": it["o"], "ev": norm_events(r.get("events") or []), "out": outs,
-                    "cbn": r.get("n", 0), "err": err, "found": found, "fired": bool(r.get("fired")),
+            line = {"db": it["db"], "o": it["o"], "ev": norm_events(r.get("events") or [], keep_all=it["o"].get("nolock", False)),
+                    "out": outs, "cbn": r.get("n", 0), "err": err, "found": found, "fired": bool(r.get("fired")),
                     "cache0": [], "conf": bool(it["conf"]) and not r.get("panic")}
             if it.get("sq") is not None:
                 line["sq"] = it["sq"]
             it["line"] = line
             lines.append(line)
+        return lines
+
+    def run(self, harness, workdir, tag="ops", timeout=1800):
+        """Execute on the real code, build the TLC inputs, run TraceOps, return per item results."""
+        by_db = {}
+        for it in self.items:
+            by_db.setdefault(it["db"], []).append(it["h"])
+        req = os.path.join(workdir, tag + "-req.ndjson")
+        out = os.path.join(workdir, tag + "-res.ndjson")
+        common.write_ndjson(req, [{"db": self.dbs[n].path, "mode": "fresh", "ops": ops} for n, ops in by_db.items()])
+        rc, txt, _ = common.run([harness, "ops", req, out], timeout=timeout)
+        if rc != 0:
+            raise Infra("harness ops failed (rc=%d): %s" % (rc, txt[-2000:]))
+        res = {r["id"]: r for r in common.read_ndjson(out)}
+        if len(res) != len(self.items):
+            raise Infra("harness returned %d results for %d operations" % (len(res), len(self.items)))
+        lines = self.collect(res)
         trees = os.path.join(workdir, tag + "-trees.json")
         with open(trees, "w") as f:
             json.dump({n: d.tla_tree() for n, d in self.dbs.items()}, f, separators=(",", ":"))
